@@ -18,6 +18,7 @@ PROOF_FAIL = [
     ("unable to prove pre-condition of closure", "closure-pre"),
     ("fails to satisfy `callee.requires(args)`", "closure-pre"),
     ("may not be in bounds", "bounds"),
+    ("index in bounds for this access", "bounds"),
     ("recommendation not met", "recommends"),
     ("constructed value may fail to meet its declared type invariant", "typeinv"),
 ]
